@@ -36,6 +36,8 @@ def untry(e):
             e = A.peel_refs(e[1][1])[2][0]
         elif e[0] == "call" and e[1].endswith("Option::<T>::ok_or") and e[2]:
             e = e[2][0]
+        elif e[0] == "field" and e[2] == "0" and e[1][0] == "downcast" and e[1][2] in ("Some", "Ok") and A.peel_refs(e[1][1])[0] == "call":
+            e = A.peel_refs(e[1][1])          # the payload of a primitive's Some(..): what `.ok_or(e)?` normalises to
         else:
             return e
 
